@@ -152,3 +152,348 @@ Proof.
         intro Hs0; subst s; rewrite Z.mod_0_l in Et by lia; lia. nia. lia.
 Qed.
 
+(* ---------------------------------------------------------------- instances at Z *)
+Local Notation zsmul := (smul Z 0 Z.add Z.mul).
+Local Notation zseval := (seval Z 0 Z.add Z.mul).
+Local Notation zpeq := (@peq Z 0).
+
+Ltac zinst := eauto using Zth, Zeqb_spec;
+  try exact Z.of_N; try exact 1; try exact Z.add; try exact Z.opp.
+
+Lemma z_from_vec_wf : forall p, wf Z 0 (zfv p).
+Proof. intros; eapply from_vec_wf; zinst. Qed.
+Lemma z_coeff_from_vec : forall p k, zcf (zfv p) k = nth (N.to_nat k) p 0.
+Proof. intros; eapply coeff_from_vec; zinst. Qed.
+Lemma z_from_vec_peq : forall p q, zpeq p q -> zfv p = zfv q.
+Proof. intros; eapply from_vec_peq; zinst. Qed.
+Lemma z_from_vec_dense : forall d, wf Z 0 d -> zfv (dense Z 0 d) = d.
+Proof. intros; eapply from_vec_dense; zinst. Qed.
+Lemma z_nth_dense : forall d k, sorted d -> nth k (dense Z 0 d) 0 = zcf d (N.of_nat k).
+Proof. intros; eapply nth_dense; zinst. Qed.
+Lemma z_keys_le_degree : forall d : zdict, sorted d -> Forall (fun kv => (fst kv <= degree d)%N) d.
+Proof. intros; eapply keys_le_degree; zinst. Qed.
+Lemma z_coeff_gt_degree : forall (d : zdict) j, sorted d -> (degree d < j)%N -> zcf d j = 0.
+Proof. intros; eapply coeff_gt_degree; zinst. Qed.
+Lemma z_from_vec_zero : forall p, (forall k, nth k p 0 = 0) -> zfv p = [].
+Proof. intros; eapply from_vec_zero; zinst. Qed.
+Lemma z_from_vec_nil_zero : forall p, zfv p = [] -> forall k, nth k p 0 = 0.
+Proof. intros; eapply from_vec_nil_zero; zinst. Qed.
+Lemma z_poly_eval_correct : forall p x, poly_eval Z 0 1 Z.add Z.mul (zfv p) x = zseval p x.
+Proof. intros; eapply poly_eval_correct; zinst. Qed.
+Lemma z_gmul_correct : forall p q, (degree (zfv p) + degree (zfv q) < W32)%N ->
+  zgmul (zfv p) (zfv q) = zfv (zsmul p q).
+Proof. intros; eapply gmul_correct; zinst. Qed.
+Lemma z_seval_smul : forall p q x, zseval (zsmul p q) x = zseval p x * zseval q x.
+Proof. intros; eapply seval_smul; zinst. Qed.
+Lemma z_seval_peq : forall p q x, zpeq p q -> zseval p x = zseval q x.
+Proof. intros; eapply seval_peq; zinst. Qed.
+Lemma z_smul_comm : forall p q k, nth k (zsmul p q) 0 = nth k (zsmul q p) 0.
+Proof. intros; eapply smul_comm; zinst. Qed.
+Lemma z_nth_smul_cons : forall a p q k,
+  nth k (zsmul (a :: p) q) 0 = a * nth k q 0 + shiftc Z 0 (zsmul p q) k.
+Proof. intros; eapply nth_smul_cons; zinst. Qed.
+Lemma z_nth_smul_zero_l : forall p q, (forall k, nth k p 0 = 0) -> forall k, nth k (zsmul p q) 0 = 0.
+Proof. intros; eapply nth_smul_zero_l; zinst. Qed.
+Lemma z_smul_zero_r : forall p q, (forall k, nth k q 0 = 0) -> forall k, nth k (zsmul p q) 0 = 0.
+Proof. intros p q H k. rewrite z_smul_comm. apply z_nth_smul_zero_l. exact H. Qed.
+Lemma z_seval_sneg : forall p x, zseval (sneg Z Z.opp p) x = - zseval p x.
+Proof. intros; eapply seval_sneg; zinst. Qed.
+Lemma z_cpow_succ : forall x n, cpow Z 1 Z.mul x (N.succ n) = x * cpow Z 1 Z.mul x n.
+Proof. intros; eapply cpow_succ; zinst. Qed.
+
+Lemma z_cpow : forall x n, cpow Z 1 Z.mul x n = x ^ Z.of_N n.
+Proof.
+  intros x n. induction n as [|n IH] using N.peano_ind. reflexivity.
+  rewrite z_cpow_succ, IH, N2Z.inj_succ, Z.pow_succ_r by lia. reflexivity.
+Qed.
+
+(* ---------------------------------------------------------------- eval_bit *)
+Lemma evb_step_eq : forall n st kv, (n < W32)%N -> (snd st < W32)%N ->
+  evb_step n st kv = eval_step Z 1 Z.add Z.mul (2 ^ Z.of_N n) st kv.
+Proof.
+  intros n [r last] [k v] Hn Hl. unfold evb_step, eval_step. cbn [fst snd] in *.
+  f_equal. set (g := (last - k)%N).
+  assert (Hu : umul64 n g = (n * g)%N).
+  { unfold umul64. apply N.mod_small. unfold W32, W64 in *. nia. }
+  rewrite Hu, z_cpow, Z.shiftl_mul_pow2 by lia.
+  rewrite N2Z.inj_mul, Z.pow_mul_r by lia. ring.
+Qed.
+
+Lemma evb_fold_eq : forall n l st, (n < W32)%N -> (snd st < W32)%N ->
+  Forall (fun kv : N * Z => (fst kv < W32)%N) l ->
+  fold_left (evb_step n) l st = fold_left (eval_step Z 1 Z.add Z.mul (2 ^ Z.of_N n)) l st
+  /\ (snd (fold_left (evb_step n) l st) < W32)%N.
+Proof.
+  intros n. induction l as [|kv l IH]; intros st Hn Hl F; cbn [fold_left].
+  - split. reflexivity. exact Hl.
+  - inversion F; subst. rewrite evb_step_eq by assumption.
+    apply IH. assumption. unfold eval_step. cbn [snd]. assumption. assumption.
+Qed.
+
+Lemma eval_bit_correct : forall p n, zfv p <> [] -> (n < W32)%N -> (degree (zfv p) < W32)%N ->
+  eval_bit (zfv p) n = Ok (zseval p (2 ^ Z.of_N n)).
+Proof.
+  intros p n Hne Hn Hd. rewrite <- z_poly_eval_correct.
+  destruct (z_from_vec_wf p) as [Sp _]. pose proof (z_keys_le_degree _ Sp) as K.
+  unfold eval_bit, poly_eval. set (d := zfv p) in *.
+  destruct (rev d) as [|[k0 v0] l] eqn:E.
+  { exfalso. apply Hne. rewrite <- (rev_involutive d), E. reflexivity. }
+  rewrite <- E.
+  assert (Hk0 : (k0 < W32)%N).
+  { assert (degree d = k0) by (unfold degree; rewrite E; reflexivity). lia. }
+  assert (F : Forall (fun kv : N * Z => (fst kv < W32)%N) (rev d)).
+  { apply Forall_forall. intros kv Hin. apply in_rev in Hin. rewrite Forall_forall in K.
+    specialize (K kv Hin). cbn in K. lia. }
+  destruct (evb_fold_eq n (rev d) (0, k0) Hn Hk0 F) as [Efold Hlast].
+  rewrite Efold in *. f_equal.
+  set (st := fold_left (eval_step Z 1 Z.add Z.mul (2 ^ Z.of_N n)) (rev d) (0, k0)) in *.
+  assert (Hu : umul64 n (snd st) = (n * snd st)%N).
+  { unfold umul64. apply N.mod_small. unfold W32, W64 in *. nia. }
+  rewrite Hu, z_cpow, Z.shiftl_mul_pow2 by lia.
+  rewrite N2Z.inj_mul, Z.pow_mul_r by lia. reflexivity.
+Qed.
+
+(* ---------------------------------------------------------------- max_abs_coef *)
+Lemma fold_max_spec : forall (d : zdict) cur,
+  let r := fold_left (fun cur kv => if cur <? Z.abs (snd kv) then Z.abs (snd kv) else cur) d cur in
+  cur <= r /\ Forall (fun kv => Z.abs (snd kv) <= r) d.
+Proof.
+  induction d as [|[k v] d IH]; intros cur; cbn [fold_left snd].
+  - split. lia. constructor.
+  - destruct (IH (if cur <? Z.abs v then Z.abs v else cur)) as [H1 H2].
+    split. destruct (cur <? Z.abs v) eqn:E; lia.
+    constructor; [|exact H2]. cbn [snd]. destruct (cur <? Z.abs v) eqn:E; lia.
+Qed.
+
+Lemma max_abs_spec : forall d : zdict, d <> [] ->
+  exists A, max_abs_coef d = Ok A /\ 0 <= A /\ Forall (fun kv => Z.abs (snd kv) <= A) d.
+Proof.
+  intros [|[k v] d] H. congruence. unfold max_abs_coef.
+  destruct (fold_max_spec ((k, v) :: d) (Z.abs v)) as [H1 H2].
+  eexists. split. reflexivity. split. lia. exact H2.
+Qed.
+
+(* ---------------------------------------------------------------- coefficient bounds *)
+Lemma smul_bound_l : forall p q A B (m : nat),
+  0 <= A -> 0 <= B ->
+  (forall k, Z.abs (nth k p 0) <= A) -> (forall k, Z.abs (nth k q 0) <= B) ->
+  (forall k, (m <= k)%nat -> nth k p 0 = 0) ->
+  forall k, Z.abs (nth k (zsmul p q) 0) <= Z.of_nat m * A * B.
+Proof.
+  induction p as [|a p IH]; intros q A B m HA HB Hp Hq Hm k.
+  - cbn [smul]. destruct k; cbn [nth]; nia.
+  - destruct m as [|m].
+    + rewrite z_nth_smul_zero_l. cbn. lia. intro j. apply Hm. lia.
+    + rewrite z_nth_smul_cons.
+      assert (Ha : Z.abs a <= A) by (apply (Hp O)).
+      assert (Hqk : Z.abs (nth k q 0) <= B) by apply Hq.
+      assert (Hsh : Z.abs (shiftc Z 0 (zsmul p q) k) <= Z.of_nat m * A * B).
+      { destruct k; cbn [shiftc]. cbn. nia.
+        apply IH; try assumption. intro j. apply (Hp (S j)). intros j Hj. apply (Hm (S j)). lia. }
+      assert (Z.abs (a * nth k q 0) <= A * B) by (rewrite Z.abs_mul; nia).
+      rewrite Nat2Z.inj_succ. lia.
+Qed.
+
+Lemma smul_support : forall p q (m n : nat),
+  (forall k, (m <= k)%nat -> nth k p 0 = 0) -> (forall k, (n <= k)%nat -> nth k q 0 = 0) ->
+  forall k, (m + n <= S k)%nat -> nth k (zsmul p q) 0 = 0.
+Proof.
+  induction p as [|a p IH]; intros q m n Hm Hn k Hk.
+  - destruct k; reflexivity.
+  - destruct m as [|m].
+    + apply z_nth_smul_zero_l. intro j. apply Hm. lia.
+    + rewrite z_nth_smul_cons. rewrite (Hn k) by lia.
+      destruct k; cbn [shiftc]. lia.
+      rewrite (IH q m n); try assumption. lia. intros j Hj. apply (Hm (S j)). lia. lia.
+Qed.
+
+(* coefficients of from_vec p are bounded by max_abs_coef and vanish above the degree *)
+Lemma coeffs_bounded : forall p A, Forall (fun kv => Z.abs (snd kv) <= A) (zfv p) -> 0 <= A ->
+  forall k, Z.abs (nth k p 0) <= A.
+Proof.
+  intros p A F HA k. pose proof (z_coeff_from_vec p (N.of_nat k)) as E. rewrite Nat2N.id in E.
+  rewrite <- E. clear E. induction (zfv p) as [|[k' v'] d IH]; cbn [get_coeff]. cbn. lia.
+  inversion F; subst. destruct (k' =? N.of_nat k)%N. assumption. apply IH. assumption.
+Qed.
+
+Lemma coeffs_vanish : forall p k, (S (N.to_nat (degree (zfv p))) <= k)%nat -> nth k p 0 = 0.
+Proof.
+  intros p k H. pose proof (z_coeff_from_vec p (N.of_nat k)) as E. rewrite Nat2N.id in E.
+  rewrite <- E. apply z_coeff_gt_degree. apply z_from_vec_wf. lia.
+Qed.
+
+Lemma degree_nonzero_coeff : forall d : zdict, wf Z 0 d -> d <> [] -> zcf d (degree d) <> 0.
+Proof.
+  intros d [Sd Nd] Hne. erewrite coeff_degree_lc; zinst. eapply get_lc_nonzero; zinst.
+Qed.
+
+Lemma degree_smul_le : forall p q,
+  (degree (zfv (zsmul p q)) <= degree (zfv p) + degree (zfv q))%N.
+Proof.
+  intros p q. destruct (zfv (zsmul p q)) as [|kv d] eqn:E. cbn. lia.
+  rewrite <- E. destruct (N.le_gt_cases (degree (zfv (zsmul p q))) (degree (zfv p) + degree (zfv q))) as [L|L].
+  exact L. exfalso.
+  apply (degree_nonzero_coeff (zfv (zsmul p q))). apply z_from_vec_wf. rewrite E. discriminate.
+  rewrite z_coeff_from_vec.
+  apply (smul_support p q (S (N.to_nat (degree (zfv p)))) (S (N.to_nat (degree (zfv q))))).
+  intros k Hk. apply coeffs_vanish. exact Hk.
+  intros k Hk. apply coeffs_vanish. exact Hk. lia.
+Qed.
+
+Lemma length_dense : forall d : zdict, (N.of_nat (length (dense Z 0%Z d)) <= degree d + 1)%N.
+Proof.
+  intros [|kv d]. cbn. lia. unfold dense. rewrite map_length, seq_length. lia.
+Qed.
+
+(* ---------------------------------------------------------------- the bit budget *)
+Lemma size_pow_Z : forall a : Z, 0 <= a -> a < 2 ^ Z.of_N (N.size (Z.to_N a)).
+Proof.
+  intros a Ha. pose proof (N.size_gt (Z.to_N a)) as H. apply N2Z.inj_lt in H.
+  rewrite N2Z.inj_pow, Z2N.id in H by lia. exact H.
+Qed.
+
+Lemma uadd_small : forall x y, (x + y < W32)%N -> uadd x y = (x + y)%N.
+Proof. intros. unfold uadd. apply N.mod_small. assumption. Qed.
+
+Lemma kron_bits_spec : forall (a b : zdict) A B,
+  (degree a + degree b < W32)%N ->
+  (N.size (N.min (degree a + 1) (degree b + 1)) + N.size (Z.to_N A) + N.size (Z.to_N B) + 1 < W32)%N ->
+  exists sm : N,
+    kron_bits a b A B = (sm + N.size (Z.to_N A) + N.size (Z.to_N B) + 1)%N /\
+    Z.of_N (N.min (degree a + 1) (degree b + 1)) <= 2 ^ Z.of_N sm /\
+    (sm + N.size (Z.to_N A) + N.size (Z.to_N B) + 1 < W32)%N.
+Proof.
+  intros a b A B Hd Hs. unfold kron_bits, bit_length.
+  set (da := degree a) in *. set (db := degree b) in *.
+  set (sA := N.size (Z.to_N A)) in *. set (sB := N.size (Z.to_N B)) in *.
+  exists (N.size (N.min (uadd da 1) (uadd db 1))).
+  assert (Hcase : (N.size (N.min (uadd da 1) (uadd db 1)) <= N.size (N.min (da + 1) (db + 1)))%N
+                  /\ Z.of_N (N.min (da + 1) (db + 1)) <= 2 ^ Z.of_N (N.size (N.min (uadd da 1) (uadd db 1)))).
+  { destruct (N.lt_ge_cases (da + 1) W32) as [La|La]; destruct (N.lt_ge_cases (db + 1) W32) as [Lb|Lb].
+    - rewrite !uadd_small by assumption. split. lia.
+      pose proof (N.size_gt (N.min (da + 1) (db + 1))) as H. apply N2Z.inj_lt in H.
+      rewrite N2Z.inj_pow in H. change (Z.of_N 2) with 2 in H. lia.
+    - assert (db + 1 = W32)%N by lia. assert (da = 0)%N by lia.
+      unfold uadd at 2. rewrite H, N.mod_same by (unfold W32; lia).
+      rewrite N.min_0_r. cbn [N.size Z.of_N]. split. lia.
+      rewrite H0. change (0 + 1)%N with 1%N. rewrite N.min_l by lia. cbn. lia.
+    - assert (da + 1 = W32)%N by lia. assert (db = 0)%N by lia.
+      unfold uadd at 1. rewrite H, N.mod_same by (unfold W32; lia).
+      rewrite N.min_0_l. cbn [N.size Z.of_N]. split. lia.
+      rewrite H0. change (0 + 1)%N with 1%N. rewrite N.min_r by lia. cbn. lia.
+    - exfalso. lia. }
+  destruct Hcase as [H1 H2].
+  set (sm := N.size (N.min (uadd da 1) (uadd db 1))) in *.
+  split; [|split; [exact H2 | lia]].
+  rewrite (uadd_small sm sA) by lia. rewrite (uadd_small (sm + sA) sB) by lia.
+  rewrite uadd_small by lia. reflexivity.
+Qed.
+
+(* ---------------------------------------------------------------- THEOREM *)
+Lemma zfv_nonempty_cases : forall p, zfv p = [] \/ zfv p <> [].
+Proof. intro p. destruct (zfv p). left; reflexivity. right; discriminate. Qed.
+
+Theorem kmul_correct : forall p q : list Z,
+  fits_u32 (zfv p) (zfv q) = true ->
+  kmul (zfv p) (zfv q) = Ok (zfv (zsmul p q)).
+Proof.
+  intros p q Hfits. unfold kmul.
+  destruct (zfv_nonempty_cases p) as [Ea|Na].
+  { rewrite Ea. cbn [is_empty]. apply f_equal. symmetry. apply z_from_vec_zero.
+    apply z_nth_smul_zero_l. apply z_from_vec_nil_zero. exact Ea. }
+  destruct (zfv_nonempty_cases q) as [Eb|Nb].
+  { replace (is_empty (zfv p)) with false by (destruct (zfv p); [congruence|reflexivity]).
+    rewrite Eb. cbn [is_empty]. apply f_equal. symmetry. apply z_from_vec_zero.
+    apply z_smul_zero_r. apply z_from_vec_nil_zero. exact Eb. }
+  replace (is_empty (zfv p)) with false by (destruct (zfv p); [congruence|reflexivity]).
+  replace (is_empty (zfv q)) with false by (destruct (zfv q); [congruence|reflexivity]).
+  destruct (max_abs_spec _ Na) as [A [EA [HA FA]]].
+  destruct (max_abs_spec _ Nb) as [B [EB [HB FB]]].
+  unfold fits_u32 in Hfits. rewrite EA, EB in Hfits. rewrite EA, EB. cbn [bind].
+  apply andb_prop in Hfits. destruct Hfits as [Hd Hs].
+  apply N.ltb_lt in Hd. apply N.ltb_lt in Hs.
+  destruct (kron_bits_spec (zfv p) (zfv q) A B Hd Hs) as [sm [En [HM Hnw]]].
+  set (n := kron_bits (zfv p) (zfv q) A B) in *.
+  set (sA := N.size (Z.to_N A)) in *. set (sB := N.size (Z.to_N B)) in *.
+  assert (Hn0 : (0 < n)%N) by lia.
+  assert (HnW : (n < W32)%N) by lia.
+  rewrite eval_bit_correct by (try assumption; lia).
+  rewrite eval_bit_correct by (try assumption; lia). cbn [bind].
+  rewrite <- z_seval_smul.
+  set (X := 2 ^ Z.of_N n).
+  (* a coefficient list of the product without trailing zeros *)
+  set (c := dense Z 0 (zfv (zsmul p q))).
+  assert (Hc : zpeq c (zsmul p q)).
+  { intro k. unfold c. rewrite z_nth_dense by apply z_from_vec_wf.
+    rewrite z_coeff_from_vec, Nat2N.id. reflexivity. }
+  assert (Hlen : (0 + N.of_nat (length c) <= W32)%N).
+  { pose proof (length_dense (zfv (zsmul p q))). pose proof (degree_smul_le p q). fold c in H. lia. }
+  rewrite <- (z_seval_peq c (zsmul p q) X Hc).
+  rewrite <- (z_from_vec_peq c (zsmul p q) Hc).
+  (* every coefficient is below 2^(n-1) *)
+  assert (Hbound : forall k, Z.abs (nth k c 0) < 2 ^ (Z.of_N n - 1)).
+  { intro k. rewrite (Hc k).
+    pose proof (smul_bound_l p q A B (S (N.to_nat (degree (zfv p)))) HA HB
+                  (coeffs_bounded p A FA HA) (coeffs_bounded q B FB HB) (coeffs_vanish p) k) as B1.
+    pose proof (smul_bound_l q p B A (S (N.to_nat (degree (zfv q)))) HB HA
+                  (coeffs_bounded q B FB HB) (coeffs_bounded p A FA HA) (coeffs_vanish q) k) as B2.
+    rewrite <- z_smul_comm in B2.
+    set (v := Z.abs (nth k (zsmul p q) 0)) in *.
+    assert (Hv : v <= Z.of_N (N.min (degree (zfv p) + 1) (degree (zfv q) + 1)) * A * B).
+    { destruct (N.le_ge_cases (degree (zfv p) + 1) (degree (zfv q) + 1)) as [L|L].
+      - rewrite N.min_l by exact L.
+        replace (Z.of_N (degree (zfv p) + 1)) with (Z.of_nat (S (N.to_nat (degree (zfv p))))) by lia. exact B1.
+      - rewrite N.min_r by exact L.
+        replace (Z.of_N (degree (zfv q) + 1)) with (Z.of_nat (S (N.to_nat (degree (zfv q))))) by lia.
+        replace (Z.of_nat (S (N.to_nat (degree (zfv q)))) * A * B)
+          with (Z.of_nat (S (N.to_nat (degree (zfv q)))) * B * A) by ring. exact B2. }
+    set (M := Z.of_N (N.min (degree (zfv p) + 1) (degree (zfv q) + 1))) in *.
+    pose proof (size_pow_Z A HA) as PA. pose proof (size_pow_Z B HB) as PB. fold sA in PA. fold sB in PB.
+    replace (Z.of_N n - 1) with (Z.of_N sm + Z.of_N sA + Z.of_N sB) by lia.
+    rewrite !Z.pow_add_r by lia.
+    assert (0 <= M) by (unfold M; lia).
+    assert (0 < 2 ^ Z.of_N sm) by (apply Z.pow_pos_nonneg; lia).
+    assert (A * B < 2 ^ Z.of_N sA * 2 ^ Z.of_N sB) by nia.
+    assert (M * A * B <= 2 ^ Z.of_N sm * (A * B)) by nia.
+    nia. }
+  assert (Hfull : Z.shiftl 1 (Z.of_N n) = X) by apply Z.shiftl_1_l.
+  rewrite Hfull.
+  assert (Hthresh : X / 2 = 2 ^ (Z.of_N n - 1)).
+  { unfold X. replace (Z.of_N n) with (Z.of_N n - 1 + 1) at 1 by lia.
+    rewrite Z.pow_add_r by lia. change (2 ^ 1) with 2. apply Z.div_mul. lia. }
+  rewrite Hthresh.
+  set (S0 := zseval c X).
+  assert (Hfuel : forall sa, sa = Z.abs S0 ->
+            fuel_ok (S (S (N.to_nat (N.size (Z.to_N sa))))) sa 0).
+  { intros sa Esa. left. pose proof (size_pow_Z sa ltac:(lia)).
+    replace (Z.of_nat (S (S (N.to_nat (N.size (Z.to_N sa))))) - 2) with (Z.of_N (N.size (Z.to_N sa))) by lia.
+    exact H. }
+  destruct (S0 <? 0) eqn:Esgn.
+  - (* negative value: the digits of -S0 are the negated coefficients *)
+    assert (Hneg : Z.abs S0 = zseval (sneg Z Z.opp c) X) by (rewrite z_seval_sneg; fold S0; lia).
+    rewrite (decode_correct (sneg Z Z.opp c) _ n (-1) (Z.abs S0) 0 0%N [] Hn0).
+    + cbn [app]. f_equal. unfold sneg. rewrite map_map.
+      replace (map (fun x => -1 * - x) c) with c. reflexivity.
+      symmetry. rewrite <- (map_id c) at 2. apply map_ext. intro x. lia.
+    + apply Forall_forall. intros x Hx. unfold sneg in Hx. apply in_map_iff in Hx.
+      destruct Hx as [y [Ey Hy]]. subst x. destruct (In_nth c y 0 Hy) as [k [_ Ek]].
+      rewrite <- Ek. rewrite Z.abs_opp. apply Hbound.
+    + lia.
+    + left; reflexivity.
+    + fold X. lia.
+    + apply Hfuel. reflexivity.
+    + unfold sneg. rewrite map_length. exact Hlen.
+    + constructor.
+  - rewrite (decode_correct c _ n 1 (Z.abs S0) 0 0%N [] Hn0).
+    + cbn [app]. f_equal.
+      replace (map (Z.mul 1) c) with c. reflexivity.
+      symmetry. rewrite <- (map_id c) at 2. apply map_ext. intro x. lia.
+    + apply Forall_forall. intros x Hx. destruct (In_nth c x 0 Hx) as [k [_ Ek]].
+      rewrite <- Ek. apply Hbound.
+    + lia.
+    + left; reflexivity.
+    + fold X. fold S0. lia.
+    + apply Hfuel. reflexivity.
+    + exact Hlen.
+    + constructor.
+Qed.
